@@ -496,7 +496,7 @@ func init() {
 			"(a) every call of a fixed call set (sniff JSON / tag-value / garbage inputs; parse SPDX, CycloneDX and garbage; parse with reader options; write independent documents through writers built WithFormat(F) for 3 formats; write documents to files of their own in one shared directory and read them back, parse one shared input file, detect the format of two files with one base name in two directories (a large one declaring its format at the end, a small one of another format); one writer and one reader shared by all goroutines; default writer) is executed once sequentially, " +
 			"then G in {4,16,64} goroutines execute the calls concurrently while other goroutines churn both format registries on scratch keys; every concurrent result must equal the sequential one and a writer built WithFormat(F) must emit F; " +
 			"(a') 600 writes in a scratch format whose driver is being replaced concurrently by two distinguishable fake drivers: each write must be serialized and rendered by the same driver; " +
-			"(b) a registry history (2-4 clients, <=200 operations on 2-3 contended scratch keys, call/return stamps from one atomic clock) is recorded for the unserializer and the serializer registry and checked for linearizability against a per-key register with porcupine (timeout = inconclusive). " +
+			"(b) six registry histories each (2-4 clients, 120..2400 operations on 2-3 contended scratch keys, call/return stamps from one atomic clock) are recorded for the unserializer and the serializer registry and checked for linearizability against a per-key register with porcupine (timeout = inconclusive). " +
 			"The same rounds run in a -race build whose GORACE logs are parsed (reports with protobom frames are violations); a runtime abort kills the child and is attributed to the round. " +
 			"Writes include SPDX documents with four different indentations (each reporting the indentation it produced) and two documents with distinguishable header texts in both formats. distinct = hash of the hook-event order of the round; non-trivial = round in which hook points were reached.",
 		Assumptions: []string{"schedules are sampled; the race detector is happens-before based and reports races on executed accesses whether or not the bad interleaving occurred", "documents written concurrently are independent copies"},
@@ -733,9 +733,12 @@ func c17Round(c *core.C) {
 	}
 
 	// (b) registry histories, linearizability
-	for _, which := range []string{"reader", "writer"} {
+	for hi := 0; hi < 12; hi++ {
+		// six histories per registry and round (client count and length vary): a window between two steps of one
+		// lookup is hit by few of them, and many short histories cost the checker less than one long one
+		which := []string{"reader", "writer"}[hi%2]
 		clients := 2 + r.Intn(3)
-		ops := runRegistryHistory(r, which, clients, 200/clients, &clock)
+		ops := runRegistryHistory(r, which, clients, []int{2400, 600, 120}[(hi/2)%3]/clients, &clock)
 		c.Evals(len(ops))
 		res, info := porcupine.CheckOperationsVerbose(regModel, ops, 60*time.Second)
 		_ = info
